@@ -619,9 +619,13 @@ class BzrUploader:
                         self.outf.write(f"Ignoring {change.path[0]}\n")
                         self.outf.write(f"Ignoring {change.path[1]}\n")
                     continue
-                if change.changed_content:
+                if change.changed_content or (
+                    change.kind == ("file", "file")
+                    and change.executable[0] != change.executable[1]
+                ):
                     # We update the change.path[0] content because renames and
-                    # deletions are differed.
+                    # deletions are differed. The mode can only be set by
+                    # uploading, so a changed executable bit needs it too.
                     self.upload_file(change.path[0], change.path[1])
                 self.rename_remote(change.path[0], change.path[1])
             self.finish_renames()
